@@ -12,7 +12,8 @@ package main
 //   B <hex>      benc alone: the body of unmarshalLocks WITHOUT the validator     -> <outcome>
 //                (a copy here in the harness, calling the real benc library; it ties
 //                 the model's benc_decode to benc, not to store.go)
-//   O            open a store on a fresh, not yet existing file                  -> opened
+//   O [<state> <tmp>]  open a store on a fresh path; optionally the state file and a left-over
+//                "<path>.tmp" exist already with the given bytes (hex, "-" = empty, "x" = absent) -> opened
 //   W <entries>  store.Write(map) on the open store, then: the file's bytes read with
 //                os.ReadFile | Read() on the same store | Read() on a fresh store on the path
 //                                                     -> <hex> | <outcome> | <outcome>
@@ -214,12 +215,29 @@ func childMain(dir string, asLimit uint64) {
 			os.Remove(path)
 			os.Remove(path + ".tmp")
 		case "O":
+			// O [<state hex|-|x> <tmp hex|-|x>]: what is on disk before store.New: the state file and a
+			// left-over "<path>.tmp" of an earlier process ("x" = the file does not exist, "-" = empty file)
 			if st != nil {
 				closeStore(st)
 			}
 			ctr++
 			stPath = filepath.Join(dir, fmt.Sprintf("w%d.state", ctr))
 			os.Remove(stPath)
+			os.Remove(stPath + ".tmp")
+			bad := false
+			for i, suffix := range []string{"", ".tmp"} {
+				if len(toks) <= 1+i || toks[1+i] == "x" {
+					continue
+				}
+				pre, err := unhexs(toks[1+i])
+				if err != nil || os.WriteFile(stPath+suffix, []byte(pre), 0644) != nil {
+					bad = true
+				}
+			}
+			if bad {
+				reply("bad pre-state")
+				continue
+			}
 			s, msg := openStore(stPath)
 			if s == nil {
 				reply("failed " + hexs(msg))
